@@ -347,7 +347,8 @@ def _run_variant(args):
             except AnalysisError as e:
                 return (vid, "FALSE-ALARM" if kind == "refactor" else "MISSED", f"analysis error instead of a verdict: {e}")
             known = load_known()["known"]
-            unl = [o for o in obs if o.status == "violation" and not any(known_match(p, o, known) for p in o.props)]
+            from .report import partition_known
+            _, unl = partition_known([o for o in obs if o.status == "violation"], known, lambda o: o.props)
             if kind == "seed":
                 # the seeded property itself must report a violation (directly or through a property it depends on)
                 from .props import scope
@@ -379,11 +380,12 @@ def _run_variant(args):
             except AnalysisError as e:
                 return (vid, "detected", f"analysis refuses the tree (exit 2): {e}")
             known = load_known()["known"]
-            hits = [o for o in obs if o.status == "violation" and o.rule == rule and (not where or o.where.split(":")[-1].endswith(where.split(":")[-1]))
-                    and not any(known_match(p, o, known) for p in o.props)]
+            from .report import partition_known
+            _, unl_b = partition_known([o for o in obs if o.status == "violation"], known, lambda o: o.props)
+            hits = [o for o in unl_b if o.rule == rule and (not where or o.where.split(":")[-1].endswith(where.split(":")[-1]))]
             if hits:
                 return (vid, "detected", f"{hits[0].rule} {hits[0].where} {hits[0].key}")
-            other = [o for o in obs if o.status == "violation" and not any(known_match(p, o, known) for p in o.props)]
+            other = list(unl_b)
             if other:
                 return (vid, "detected-elsewhere", f"{other[0].rule} {other[0].where} {other[0].key}")
             return (vid, "MISSED", f"expected {rule} in {where}")
